@@ -13,6 +13,7 @@ import (
 	"github.com/Eyevinn/mp4ff/mp4"
 	"net"
 	"regexp"
+	"strconv"
 	"strings"
 	"time"
 )
@@ -1600,6 +1601,8 @@ func tfdtTime(t *mp4.TfdtBox) uint64 { return t.BaseMediaDecodeTime() }
 //@   callsite createSubtitlesWvttMediaSegment requires ref: arg_nr == refSegMeta.newNr && arg_baseMediaDecodeTime == baseMediaDecodeTime && arg_dur == dur && arg_timeSubsDurMS == cfg.TimeSubsDurMS && arg_region == cfg.TimeSubsRegion
 //@   callsite createSubtitlesWvttMediaSegment requires utc: arg_utcTimeMS == arg_baseMediaDecodeTime + uint64(cfg.StartTimeS*1000)
 //@   callsite rep2SubsTime requires msOfRef: arg_timescale == int(refSegMeta.timescale) && (arg_repTime == refSegMeta.newTime || arg_repTime == uint64(refSegMeta.newDur))
+//@   callsite Size requires lastSegmentIsMarkedBeforeItIsMeasured: isLast ==> called(AddCompatibleBrands)
+//@   callsite AddCompatibleBrands requires onlyTheLastSegmentOfASession: isLast
 //@   loop 1 invariant true
 
 // rep2SubsTime: media time in the reference timescale converted to (rounded) milliseconds.
@@ -1650,6 +1653,7 @@ func isImageSpec(p string) bool { return isImage(p) }
 //@   exit 4 requires onlyMediaNeedsParsedSegment: !isImageSpec(segmentPart) && so.seg == nil
 //@   callsite chunkSegment requires notAnImage: !isImageSpec(segmentPart) && so.seg != nil
 //@   callsite chunkSegment requires positive: arg_chunkDur > 0
+//@   store startUnixMS := requires protectedChunksAreEncryptedBeforeAnyIsSent: cfg.DRM != "" ==> called(encryptFrags) && len(frags) == len(chunks)
 //@   callsite chunkSegment requires whatTheOffsetLeavesOfThisSegment: arg_chunkDur == int(so.meta.newDur) - int(cfg.AvailabilityTimeOffsetS*1000.0) * int(so.meta.rep.MediaTimescale) / 1000 && arg_segMeta == so.meta && arg_seg == so.seg
 //@   loop 1 invariant true
 //@   loop 2 invariant 0 <= rangeidx && rangeidx <= len(chunks) && chunkAvailTime == int(so.meta.newTime) + cfg.StartTimeS*int(rep.MediaTimescale) + sumChunkDurs(chunks, rangeidx)
@@ -1668,8 +1672,11 @@ func isImageSpec(p string) bool { return isImage(p) }
 //@   loop 1 invariant true
 //@ func writeInitSegment
 //@   wiring
+// createAudioSegment: the meta data handed on (to the chunker: decode times and pacing) is the
+// recipe's own frame-aligned interval, not the reference track's converted start.
 //@ func createAudioSegment
 //@   wiring
+//@   exit 3 requires metaIsTheRecipeInterval: so.meta.rep == rep && so.meta.newTime == recipe.startTime && so.meta.newDur == uint32(recipe.endTime - recipe.startTime) && so.meta.newNr == recipe.segNr && so.meta.timescale == uint32(rep.MediaTimescale)
 
 // ---------------------------------------------------------------------------
 // C10: key ids, keys and init protection data
@@ -1945,6 +1952,30 @@ func quoteMetaSpec(s string) string             { return regexp.QuoteMeta(s) }
 //@ uninterpreted strReplaceAllSpec
 //@ uninterpreted quoteMetaSpec
 
+// atoiSpec: the value strconv.Atoi gives for a decimal string (uninterpreted in proofs).
+func atoiSpec(s string) int { v, _ := strconv.Atoi(s); return v }
+
+//@ uninterpreted atoiSpec
+//@ extern func strconv.Atoi(s) (v, err)
+//@   ensures err == nil ==> v == atoiSpec(s)
+
+// findRepAndSegmentID (C01: $Number$ and $Time$ address the same 64-bit timeline): the identifier
+// is the whole decimal number matched by the representation's pattern, in the full int range - a
+// $Time$ value far from the epoch does not fit 32 bits - and a number that does not parse is
+// "not found".
+//@ func findRepAndSegmentID
+//@   wiring
+//@   loop 1 invariant true
+//@   exit 3 requires wholeDecimalNumberInFullRange: r == rep && segID == atoiSpec(mParts[1]) && err == nil
+//@   callsite Errorf requires unparsableIsNotFound: nvarargs == 0 || vararg1 == errNotFound
+
+// SetupServer (C20: the quota is per configured interval): the limiter is created with the
+// configured maximum and the configured interval taken in seconds.
+//@ func SetupServer
+//@   wiring
+//@   callsite NewIPRequestLimiter requires quotaAndIntervalAsConfigured: arg_maxNrRequests == cfg.MaxRequests && int(arg_interval) == cfg.ReqLimitInt * 1000000000
+//@   loop 1 invariant true
+
 // strContains: strings.Contains (uninterpreted in proofs).
 func strContains(s, sub string) bool { return strings.Contains(s, sub) }
 
@@ -2205,6 +2236,8 @@ func contiguousUpTo(r *RepData, n int) bool {
 //@   nowrap assumed
 //@   requires chunkDur > 0
 //@   callsite AddEmsg requires eventsTravelWithTheFirstChunk: arg0 == ch.frag && len(chunks) == 0 && ch.styp == seg.Styp
+//@   callsite AddEmsg requires takenFromTheBoxList: exists i in [0, len(seg.Fragments[0].Children)) :: seg.Fragments[0].Children[i].(*mp4.EmsgBox) == arg1
+//@   loop 2 invariant 0 <= rangeidx
 //@   callsite append:chunks requires chunkDurCoversItsSamples: vararg0.dur == uint64(thisChunkDur) || (vararg0.dur == uint64(chunkDur) && int(thisChunkDur) <= chunkDur)
 //@   callsite append:chunks requires stypOnlyOnFirst: (len(chunks) == 0 ==> vararg0.styp == seg.Styp) && (len(chunks) >= 1 ==> vararg0.styp == nil)
 //@   loop 3 invariant chunkNr == len(chunks)+1 && chunkNr >= 1 && totalDur >= 0 && fresh(chunks)
